@@ -23,7 +23,7 @@ RULE = ("A history = a prefix of 1-6 other models followed by a target model, al
         "manufactured optimum), which do not depend on process state.  Non-trivial = the prefix contains a model "
         "that shares a declared name with the target (or a flood ran) before the target was observed."
         '  Also: two families of models that differ only in parameter values (p*x, p*x+q*y, ... without literal constants) or only in declared bounds (bare `x >= 0`, x absent from the objective); floods also hammer one hot expression with cache hits before dropping all references.')
-BUDGET = {"quick": {"workers": 16, "examples": 40}, "thorough": {"workers": 16, "examples": 800}}
+BUDGET = {"quick": {"workers": 16, "examples": 60}, "thorough": {"workers": 16, "examples": 800}}
 ASSUMPTIONS = ["the per-property checks pass for a model observed alone (that is what C01-C04, C08, C09, C17 establish)"]
 MANIFEST = {
  "technique": "property-based testing (Hypothesis): adversarial same-name model prefixes and cache floods in one process; target judged against process-independent absolute oracles",
